@@ -68,6 +68,8 @@ int h_regexec(const regex_t *preg, const char *s, size_t nmatch, regmatch_t pmat
 void h_regfree(regex_t *preg);
 int h_pthread_create(pthread_t *th, const pthread_attr_t *attr, void *(*fn)(void *), void *arg);
 int h_cond_timedwait(pthread_cond_t *c, pthread_mutex_t *m, const struct timespec *t);
+int h_mutex_lock(pthread_mutex_t *m, const char *expr, const char *fn);
+int h_mutex_unlock(pthread_mutex_t *m, const char *expr, const char *fn);
 
 #ifndef H_NO_INTERPOSE
 #define malloc(n) h_malloc((n), __func__, __LINE__)
@@ -83,6 +85,9 @@ int h_cond_timedwait(pthread_cond_t *c, pthread_mutex_t *m, const struct timespe
 #define regcomp(p, s, f) h_regcomp((p), (s), (f))
 #define regexec(p, s, n, m, f) h_regexec((p), (s), (n), (m), (f))
 #define regfree(p) h_regfree(p)
+/* lock-order recording (C17): the expression text names the lock class */
+#define pthread_mutex_lock(m) h_mutex_lock((m), #m, __func__)
+#define pthread_mutex_unlock(m) h_mutex_unlock((m), #m, __func__)
 #ifdef H_INTERPOSE_THREADS
 #define pthread_create(t, a, f, x) h_pthread_create((t), (a), (f), (x))
 #define pthread_cond_timedwait(c, m, t) h_cond_timedwait((c), (m), (t))
